@@ -652,6 +652,25 @@ func (c *Ctx) tok12() {
 	}
 	c.S.Floor("TOK-12", "functions touching the callback registry", n, 3)
 
+	// the identifier counter only moves forward, and only at assignment:
+	// stepping it back gives the identifier of a request that was written —
+	// and may still be answered — to the next request
+	c.checkSites("TOK-12", "write(unorderedTxs.n)", c.fieldWriters("unorderedTxs.n"), set("(*unorderedTxs).startTx"),
+		"the subscribe/unsubscribe identifier counter advances at assignment only", 1)
+	fwd := c.acc("TOK-12", c.Fn("TOK-12", "(*unorderedTxs).startTx"), "identifier-counter-only-incremented(package-wide)")
+	c.eachInstr(func(fn *ssa.Function, ins ssa.Instruction) {
+		st, ok := ins.(*ssa.Store)
+		if !ok || pathx.RoleOfAddr(st.Addr).Key() != "unorderedTxs.n" {
+			return
+		}
+		if isIncrementOf(st.Val, st.Addr) {
+			fwd.pass()
+		} else {
+			fwd.failAt(c.P.Pos(st.Pos()), "%s sets the identifier counter to %s, which is not counter+1: an identifier handed out before can be handed out again while its request is still awaiting the broker's answer", load.FuncName(fn), Expr(st.Val))
+		}
+	})
+	fwd.done(1, "every store to the counter is counter+1")
+
 	st := c.Fn("TOK-12", "(*unorderedTxs).startTx")
 	if st == nil {
 		return
